@@ -673,6 +673,13 @@ class Lowerer:
 
     # ---- driver
     def run(self):
+        for q in self.spec.get('export_globals', []):
+            hits = [n for i, n in self.idx.by_id.items() if n.get('kind') == 'VarDecl' and self.idx.qname.get(i) == q]
+            if not hits:
+                raise InfraError('contract no longer attached: global %s not found' % q)
+            self.cur = Fn(hits[0], '__export')
+            self.global_var(hits[0])
+            self.cur = None
         while self.worklist:
             f = self.worklist.pop(0)
             self.lower_fn(f)
@@ -864,6 +871,25 @@ class Lowerer:
         k = n.get('kind')
         I = self.ind(d)
         if k == 'CompoundStmt':
+            kfrom = getattr(self.cur, 'keep_from_call', None) if top else None
+            if kfrom:
+                # region = every top-level statement from the one containing a call to `kfrom` to the end
+                parts, on = [], False
+                for c in n.get('inner', []):
+                    if not on and self.mentions_call(c, kfrom):
+                        on = True
+                        self.note('region of %s starts at the call to %s at %s: earlier statements are not lowered here' % (self.cur.cname, kfrom, where(c)))
+                    if on:
+                        parts.append(self.skel_stmt(c, d + 1) if getattr(self.cur, 'skeleton', False) else self.stmt(c, d + 1))
+                    else:
+                        # declarations before the region become unavailable
+                        if c.get('kind') == 'DeclStmt':
+                            for x in c.get('inner', []):
+                                if x.get('kind') == 'VarDecl' and x.get('name'):
+                                    self.cur.dropped_vars.add(x['name'])
+                if not on:
+                    raise InfraError('contract no longer attached: region start call %s not found in %s' % (kfrom, self.cur.cname))
+                return '%s{\n%s%s}\n' % (self.ind(d - 1), ''.join(parts), self.ind(d - 1))
             until = getattr(self.cur, 'keep_until', None) if top else None
             if until:
                 # region = every top-level statement before the (kind, ordinal) one
